@@ -85,26 +85,15 @@ LibFinder(e) == LET m == Post(e) IN
 \* the facets table of the result holds the facets of its cells
 LibFacets(e) == LET m == Post(e) IN
   e.lib.facets = <<>> \/ {PtsOf(m, e.lib.facets[f]) : f \in DOMAIN e.lib.facets} = GeoFacets(m)
-\* named deviation: MeshQuad1.element_finder() goes through to_meshtri(), whose facet lookup (mesh_quad_1.py:186-195)
-\* walks ONE shared iterator over the triangle mesh's facets for the sorted tagged facets - a named boundary that lists
-\* a facet twice (remove_duplicate_nodes leaves such an array when it merges two tagged copies of a facet) makes it
-\* raise StopIteration, so the finder of such a quadrilateral mesh cannot be built
-RepeatedFacetId(m) == \E j \in DOMAIN m.bnd : ~IsInjectiveSeq(m.bnd[j].ids)
-RepeatedIdBreaksFinder(e) == /\ Post(e).kind = "quad" /\ RepeatedFacetId(Post(e)) /\ e.lib.find # <<>>
-                             /\ \A k \in DOMAIN e.lib.find : e.lib.find[k] = 0
 LibClauses(e) ==
   IF e.lib.ok = 2 THEN [LibAnswers |-> FALSE]            \* the library raised when asked about its own (well-formed) result
   ELSE IF ~LibShape(e) THEN [LibAnswers |-> TRUE, LibWellFormed |-> FALSE]
-  ELSE LET finder == LibFinder(e)
-           devRep == ~finder /\ RepeatedIdBreaksFinder(e)
-       IN [ LibAnswers |-> TRUE, LibWellFormed |-> TRUE, LibCentroids |-> LibCentroids(e), LibDetDF |-> LibDetDF(e),
-            LibMeasure |-> LibMeasure(e), LibFirstMoment |-> LibFirstMoment(e), LibFinder |-> finder \/ devRep,
-            Deviation_RepeatedFacetIdBreaksQuadSplit |-> ~devRep,
-            LibFacets |-> LibFacets(e) ]
+  ELSE [ LibAnswers |-> TRUE, LibWellFormed |-> TRUE, LibCentroids |-> LibCentroids(e), LibDetDF |-> LibDetDF(e),
+         LibMeasure |-> LibMeasure(e), LibFirstMoment |-> LibFirstMoment(e), LibFinder |-> LibFinder(e),
+         LibFacets |-> LibFacets(e) ]
 \* after a named deviation the chain goes on with a mesh that is not what the operation should have produced (cells
 \* may overlap): the later events of the scenario are still judged relative to their operands, but not through the library
-DevNames == {"Deviation_CountsUsedVerticesNotStoredPoints", "Deviation_ExtrusionIgnoresLineCells",
-             "Deviation_RepeatedFacetIdBreaksQuadSplit"}
+DevNames == {"Deviation_ExtrusionIgnoresLineCells"}
 
 \* the document the harness wrote has the shape this specification reads (evaluated first: a malformed event is a
 \* failure of the machinery, reported by name instead of a TLC evaluation error)
